@@ -78,6 +78,8 @@ bool linepart::array::set(long len)
 	}
 	lp = begin();
 	for (long i = 0; i < num; ++i) {
+		/* all points drawn: no fraction of an earlier use remains */
+		lp[i]._cut = lp[i]._trim = 0;
 		if (len < max) {
 			lp[i].usr = lp[i].raw = len;
 			len = 0;
